@@ -169,6 +169,25 @@ pub struct BakedParameters<WpParam, T> {
     white_point: PhantomData<WpParam>,
 }
 
+/// Verification hooks, compiled only with `--cfg palette_verif`.
+#[cfg(palette_verif)]
+impl<WpParam, T: Clone> BakedParameters<WpParam, T> {
+    /// The viewing-condition dependent quantities computed by baking.
+    #[doc(hidden)]
+    pub fn verif_dependent(&self) -> [T; 17] {
+        self.inner.verif_fields()
+    }
+
+    /// Baked parameters with explicitly given dependent quantities.
+    #[doc(hidden)]
+    pub fn verif_from_dependent(fields: [T; 17]) -> Self {
+        Self {
+            inner: super::math::DependentParameters::verif_from_fields(fields),
+            white_point: PhantomData,
+        }
+    }
+}
+
 impl<WpParam, T, I, O> Convert<I, O> for BakedParameters<WpParam, T>
 where
     Self: ConvertOnce<I, O> + Copy,
